@@ -20,7 +20,7 @@ def derive_seed(root_seed, prop, run_index, salt=""):
 
 
 class Tape:
-    __slots__ = ("rng", "replay", "pos", "rec", "seed", "labels")
+    __slots__ = ("rng", "replay", "pos", "rec", "seed", "labels", "marks")
 
     def __init__(self, seed=None, replay=None, labels=True):
         self.seed = seed
@@ -29,6 +29,7 @@ class Tape:
         self.pos = 0
         self.rec = []  # recorded values (after clamping) - the canonical tape
         self.labels = [] if labels else None
+        self.marks = []  # positions in rec where a generated operation begins
 
     # ------------------------------------------------------------------ core
     def choose(self, n, label=""):
@@ -49,6 +50,12 @@ class Tape:
         if self.labels is not None:
             self.labels.append((label, n))
         return v
+
+    def mark(self):
+        """A generated operation starts here: the shrinker tries to delete whole
+        operations (the span up to the next mark) before anything finer."""
+        if not self.marks or self.marks[-1] != len(self.rec):
+            self.marks.append(len(self.rec))
 
     # --------------------------------------------------------------- helpers
     def flag(self, num, den, label=""):
